@@ -550,6 +550,12 @@ def pyOp (m : Mode) (op : Op) (a b : Atom) : PyR := pyBinop m op a b 8
 
 abbrev R := Except Err Bool
 
+instance instDecEqExcept {ε α} [DecidableEq ε] [DecidableEq α] : DecidableEq (Except ε α)
+  | .ok a, .ok b => if h : a = b then isTrue (by rw [h]) else isFalse (by intro h'; cases h'; exact h rfl)
+  | .error a, .error b => if h : a = b then isTrue (by rw [h]) else isFalse (by intro h'; cases h'; exact h rfl)
+  | .ok _, .error _ => isFalse (by intro h; cases h)
+  | .error _, .ok _ => isFalse (by intro h; cases h)
+
 /-- how evaluate__comparison_operators (_xpath1_operators.py:84-102) and
 evaluate__value_comparison_operators map Python exceptions to error codes -/
 def liftPy : PyR → R
